@@ -580,32 +580,32 @@ theorem injOn_of_hashesNames (hr : fx.hashesRule = true) (hf : fx.hashesFiles = 
   simp only [Prod.mk.injEq, Option.some.injEq] at hpq
   exact Prod.ext hpq.1 (hP hpq.2)
 
-variable (bfx : Build.Facts) (mv : C → C → C) (exec : A → List (N × C) → C) (ruleSer : A → S)
+variable (bfx : Build.Facts) (mv rs : C → C → C) (exec : A → List (N × C) → C) (ruleSer : A → S)
 
 /-- The build phase keeps the build invariants of plz-out and of the artifact cache. -/
-theorem buildPhase_inv (hmv : MvOK pathSer mv) (hP : Function.Injective pathSer)
+theorem buildPhase_inv (hmv : MvOK pathSer mv) (hrs : ∀ o n, rs o n = n) (hP : Function.Injective pathSer)
     (r : TRepo K A F N C A' G) (sel : K → Bool) (out : Out K C S N H) (bc : Build.Cache K C S N H)
     (h : Inv exec ruleSer pathSer out) (hc : InvC exec ruleSer pathSer bc) :
-    Inv exec ruleSer pathSer (buildPhase pathSer bfx mv exec ruleSer r sel out bc).1 ∧
-    InvC exec ruleSer pathSer (buildPhase pathSer bfx mv exec ruleSer r sel out bc).2.1 := by
+    Inv exec ruleSer pathSer (buildPhase pathSer bfx mv rs exec ruleSer r sel out bc).1 ∧
+    InvC exec ruleSer pathSer (buildPhase pathSer bfx mv rs exec ruleSer r sel out bc).2.1 := by
   unfold buildPhase
   by_cases hon : r.cacheOn = true
   · simp only [hon, if_true]
-    exact buildListC_inv bfx mv exec ruleSer pathSer hmv hP r.repo sel r.repo.targets out bc h hc
+    exact buildListC_inv bfx mv rs exec ruleSer pathSer hmv hrs hP r.repo sel r.repo.targets out bc h hc
   · simp only [hon]
     exact ⟨buildList_inv bfx mv exec ruleSer pathSer hmv hP r.repo sel r.repo.targets out h, hc⟩
 
 /-- From invariant-satisfying plz-out and cache, the build phase gives every target of the closure its clean output. -/
-theorem buildPhase_clean (hmv : MvOK pathSer mv) (hf : bfx.cmpRule = true ∧ bfx.cmpSource = true)
+theorem buildPhase_clean (hmv : MvOK pathSer mv) (hrs : ∀ o n, rs o n = n) (hf : bfx.cmpRule = true ∧ bfx.cmpSource = true)
     (hR : Function.Injective ruleSer) (hP : Function.Injective pathSer)
     (r : TRepo K A F N C A' G) (sel : K → Bool) (out : Out K C S N H) (bc : Build.Cache K C S N H)
     (h : Inv exec ruleSer pathSer out) (hc : InvC exec ruleSer pathSer bc) (hwf : WFList sel [] r.repo.targets) :
     ∀ k ∈ selKeys sel r.repo.targets, ∃ c st,
-      (buildPhase pathSer bfx mv exec ruleSer r sel out bc).1 k = some (c, st) ∧ (clean exec r.repo sel).lookup k = some c := by
+      (buildPhase pathSer bfx mv rs exec ruleSer r sel out bc).1 k = some (c, st) ∧ (clean exec r.repo sel).lookup k = some c := by
   unfold buildPhase
   by_cases hon : r.cacheOn = true
   · simp only [hon, if_true]
-    have := buildListC_spec bfx mv exec ruleSer pathSer hmv hf hR hP r.repo sel r.repo.targets [] out bc [] rfl h hc
+    have := buildListC_spec bfx mv rs exec ruleSer pathSer hmv hrs hf hR hP r.repo sel r.repo.targets [] out bc [] rfl h hc
       (by intro k hk; simp at hk) hwf
     intro k hk
     exact this.2.2.2 k (by simpa using hk)
@@ -620,18 +620,18 @@ def AdmHist (P : A' → List (N × C) → Prop) :
     List (TOp K A F N C S H A' G (RStamp S' G N H)) → TState K C S N H (RStamp S' G N H) → Prop
   | [], _ => True
   | .test r sel tsel fl :: ops, st =>
-    Adm P r tsel (buildPhase pathSer bfx mv exec ruleSer r sel st.out st.bcache).1 r.repo.targets ∧
-    AdmHist P ops (testAll fx ruleSerRT pathSer outcome bfx mv exec ruleSer r sel tsel fl st).1
+    Adm P r tsel (buildPhase pathSer bfx mv rs exec ruleSer r sel st.out st.bcache).1 r.repo.targets ∧
+    AdmHist P ops (testAll fx ruleSerRT pathSer outcome bfx mv rs exec ruleSer r sel tsel fl st).1
   | .build r sel :: ops, st =>
-    AdmHist P ops ⟨(buildPhase pathSer bfx mv exec ruleSer r sel st.out st.bcache).1, st.res,
-                   (buildPhase pathSer bfx mv exec ruleSer r sel st.out st.bcache).2.1, st.rcache⟩
+    AdmHist P ops ⟨(buildPhase pathSer bfx mv rs exec ruleSer r sel st.out st.bcache).1, st.res,
+                   (buildPhase pathSer bfx mv rs exec ruleSer r sel st.out st.bcache).2.1, st.rcache⟩
   | .rmOut keep :: ops, st => AdmHist P ops ⟨fun k => if keep k then st.out k else none, st.res, st.bcache, st.rcache⟩
   | .rmRes keep :: ops, st => AdmHist P ops ⟨st.out, fun k => if keep k then st.res k else none, st.bcache, st.rcache⟩
   | .evictB keep :: ops, st => AdmHist P ops ⟨st.out, st.res, fun q => if keep q then st.bcache q else none, st.rcache⟩
   | .evictR keep :: ops, st => AdmHist P ops ⟨st.out, st.res, st.bcache, fun q => if keep q then st.rcache q else none⟩
 
 theorem admHist_true : ∀ (ops : List (TOp K A F N C S H A' G (RStamp S' G N H))) (st : TState K C S N H (RStamp S' G N H)),
-    AdmHist fx ruleSerRT pathSer outcome bfx mv exec ruleSer (fun _ _ => True) ops st := by
+    AdmHist fx ruleSerRT pathSer outcome bfx mv rs exec ruleSer (fun _ _ => True) ops st := by
   intro ops
   induction ops with
   | nil => intro _; trivial
@@ -649,9 +649,9 @@ theorem admHist_true : ∀ (ops : List (TOp K A F N C S H A' G (RStamp S' G N H)
 theorem runHistT_rinv (P : A' → List (N × C) → Prop) (hstore : fx.storeIfAllSucceeded = true) :
     ∀ (ops : List (TOp K A F N C S H A' G (RStamp S' G N H))) (st : TState K C S N H (RStamp S' G N H)),
       RInv fx ruleSerRT pathSer outcome P st.res → RCInv fx ruleSerRT pathSer outcome P st.rcache →
-      AdmHist fx ruleSerRT pathSer outcome bfx mv exec ruleSer P ops st →
-      RInv fx ruleSerRT pathSer outcome P (runHistT fx ruleSerRT pathSer outcome bfx mv exec ruleSer ops st).res ∧
-      RCInv fx ruleSerRT pathSer outcome P (runHistT fx ruleSerRT pathSer outcome bfx mv exec ruleSer ops st).rcache := by
+      AdmHist fx ruleSerRT pathSer outcome bfx mv rs exec ruleSer P ops st →
+      RInv fx ruleSerRT pathSer outcome P (runHistT fx ruleSerRT pathSer outcome bfx mv rs exec ruleSer ops st).res ∧
+      RCInv fx ruleSerRT pathSer outcome P (runHistT fx ruleSerRT pathSer outcome bfx mv rs exec ruleSer ops st).rcache := by
   intro ops
   induction ops with
   | nil => intro st h hc _; exact ⟨h, hc⟩
@@ -661,8 +661,8 @@ theorem runHistT_rinv (P : A' → List (N × C) → Prop) (hstore : fx.storeIfAl
     | test r sel tsel fl =>
       obtain ⟨ha, hrest⟩ := hadm
       have := testList_spec fx ruleSerRT pathSer outcome P hstore r tsel fl st.out
-        (buildPhase pathSer bfx mv exec ruleSer r sel st.out st.bcache).1
-        (buildPhase pathSer bfx mv exec ruleSer r sel st.out st.bcache).2.2 r.repo.targets st.res st.rcache h hc ha
+        (buildPhase pathSer bfx mv rs exec ruleSer r sel st.out st.bcache).1
+        (buildPhase pathSer bfx mv rs exec ruleSer r sel st.out st.bcache).2.2 r.repo.targets st.res st.rcache h hc ha
       exact ih _ this.1 this.2.1 hrest
     | build r sel => exact ih _ h hc hadm
     | rmOut keep => exact ih _ h hc hadm
@@ -671,11 +671,11 @@ theorem runHistT_rinv (P : A' → List (N × C) → Prop) (hstore : fx.storeIfAl
     | evictR keep => exact ih _ h (rcinv_restrict fx ruleSerRT pathSer outcome P st.rcache keep hc) hadm
 
 /-- … and the build invariants of plz-out and of the artifact cache (needs `pathSer` injective, as in C01 / C02). -/
-theorem runHistT_inv (hmv : MvOK pathSer mv) (hP : Function.Injective pathSer) :
+theorem runHistT_inv (hmv : MvOK pathSer mv) (hrs : ∀ o n, rs o n = n) (hP : Function.Injective pathSer) :
     ∀ (ops : List (TOp K A F N C S H A' G (RStamp S' G N H))) (st : TState K C S N H (RStamp S' G N H)),
       Inv exec ruleSer pathSer st.out → InvC exec ruleSer pathSer st.bcache →
-      Inv exec ruleSer pathSer (runHistT fx ruleSerRT pathSer outcome bfx mv exec ruleSer ops st).out ∧
-      InvC exec ruleSer pathSer (runHistT fx ruleSerRT pathSer outcome bfx mv exec ruleSer ops st).bcache := by
+      Inv exec ruleSer pathSer (runHistT fx ruleSerRT pathSer outcome bfx mv rs exec ruleSer ops st).out ∧
+      InvC exec ruleSer pathSer (runHistT fx ruleSerRT pathSer outcome bfx mv rs exec ruleSer ops st).bcache := by
   intro ops
   induction ops with
   | nil => intro st h hc; exact ⟨h, hc⟩
@@ -683,10 +683,10 @@ theorem runHistT_inv (hmv : MvOK pathSer mv) (hP : Function.Injective pathSer) :
     intro st h hc
     cases op with
     | test r sel tsel fl =>
-      have := buildPhase_inv pathSer bfx mv exec ruleSer hmv hP r sel st.out st.bcache h hc
+      have := buildPhase_inv pathSer bfx mv rs exec ruleSer hmv hrs hP r sel st.out st.bcache h hc
       exact ih _ this.1 this.2
     | build r sel =>
-      have := buildPhase_inv pathSer bfx mv exec ruleSer hmv hP r sel st.out st.bcache h hc
+      have := buildPhase_inv pathSer bfx mv rs exec ruleSer hmv hrs hP r sel st.out st.bcache h hc
       exact ih _ this.1 this.2
     | rmOut keep => exact ih _ (inv_restrict exec ruleSer pathSer st.out keep h) hc
     | rmRes keep => exact ih _ h hc
